@@ -247,7 +247,7 @@ Definition ref_matches (r : ref) (h : headers) : option bool :=
   if amem (bs "*") (r_resolved r) || beq (go_trim (r_vary r)) (bs "*") then Some false
   else resolved_match (r_resolved r) h.
 
-(* the matching ref with the latest Date; of equally recent ones the first in the sorted order *)
+(* the matching ref with the latest Date; of equally recent ones the last in the sorted order *)
 Fixpoint find_match (l : list ref) (h : headers) (i : Z) (best : option (Z * Z)) : option (option Z) :=
   match l with
   | [] => Some (option_map fst best)
@@ -257,7 +257,7 @@ Fixpoint find_match (l : list ref) (h : headers) (i : Z) (best : option (Z * Z))
       | Some true =>
           let better := match best with
                         | None => true
-                        | Some (_, t) => t <? r_recv r
+                        | Some (_, t) => t <=? r_recv r
                         end in
           find_match rest h (i + 1) (if better then Some (i, r_recv r) else best)
       | Some false => find_match rest h (i + 1) best
